@@ -33,6 +33,9 @@ import TracklibVerif.Gen.Obs
 import TracklibVerif.Gen.Analytics
 import TracklibVerif.Gen.Track
 import TracklibVerif.Gen.Interpolation
+import TracklibVerif.Gen.Segmentation
+import TracklibVerif.Gen.Kernel
+import TracklibVerif.Gen.Operators
 import TracklibVerif.Model.Geo
 open TV TV.Py
 def FT := TV.Geo.floatTrig
@@ -42,7 +45,7 @@ def fTrunc (x : Float) : Int := x.toInt64.toInt
 def fTruncP (x : Float) : Int := x.toInt64.toInt
 
 def sf (x : Float) : String := if x.isNaN then "nan" else toString x.toBits
-def se : Err → String | .zerodiv => "err:zerodiv" | .index => "err:index" | .type => "err:type" | .unbound => "err:unbound" | .exit => "err:exit" | .value => "err:value" | .fuel => "err:fuel"
+def se : Err → String | .zerodiv => "err:zerodiv" | .index => "err:index" | .type => "err:type" | .unbound => "err:unbound" | .exit => "err:exit" | .value => "err:value" | .fuel => "err:fuel" | .raised => "err:raised"
 def NANF : Float := 0.0 / 0.0
 def INFF : Float := 1.0 / 0.0
 def r8 : M (Int × Int × Int × Int × Int × Int × Int × Int) → String
@@ -64,6 +67,13 @@ def rb : M Bool → String | .ok v => toString v | .error e => se e
 def ro2 : M (Option (Float × Float)) → String | .ok none => "none" | .ok (some v) => sf v.1 ++ " " ++ sf v.2 | .error e => se e
 def roi : M (Option (Int × Int)) → String | .ok none => "none" | .ok (some v) => toString v.1 ++ " " ++ toString v.2 | .error e => se e
 def ri : M Int → String | .ok v => toString v | .error e => se e
+def rlog : M (List (Int × Int)) → String
+  | .ok v => " ".intercalate (v.map fun c => toString c.1 ++ "," ++ toString c.2) | .error e => se e
+def rtab : M (List (List Float)) → String
+  | .ok v => " | ".intercalate (v.map fun r => " ".intercalate (r.map sf)) | .error e => se e
+def DBLMAX : Float := Float.ofBits 0x7FEFFFFFFFFFFFFF
+/-- an uninterpreted function of two ints given by its table -/
+def tbl (t : List ((Int × Int) × Float)) (p : Int × Int) : Float := ((t.find? (fun e => e.1 == p)).map (·.2)).getD NANF
 '''
 
 
@@ -74,6 +84,130 @@ def pf(x):
 def perr(ex):
     return {"ZeroDivisionError": "err:zerodiv", "IndexError": "err:index", "TypeError": "err:type",
             "UnboundLocalError": "err:unbound"}.get(type(ex).__name__, "err:" + type(ex).__name__)
+
+
+def tie3_tests(a, rng, tests):
+    """third generation: enumerate, item assignment, [c] * n, raise, lambdas, feature columns, write log (C11, C15)"""
+    with contextlib.redirect_stdout(io.StringIO()):
+        import importlib
+        importlib.import_module("tracklib.algo.segmentation")
+        SEG = sys.modules["tracklib.algo.segmentation"]
+        from tracklib.core.obs_time import ObsTime
+        from tracklib.core.obs_coords import ENUCoords
+        from tracklib.core.obs import Obs
+        from tracklib.core.track import Track
+        import tracklib.core.kernel as K
+        from tracklib.core.operators import Filter
+    nan, inf = float("nan"), float("inf")
+    n = max(20, a.n // 3)
+
+    def mk_track(cols, xy=None):
+        m = len(next(iter(cols.values()))) if cols else len(xy)
+        t = Track()
+        for i in range(m):
+            x, y = xy[i] if xy else (float(i), 0.0)
+            t.addObs(Obs(ENUCoords(x, y, 0.0), ObsTime.readUnixTime(1000.0 + i)))
+        for name, c in cols.items():
+            t.createAnalyticalFeature(name, list(c))
+        return t
+
+    def guarded(f):
+        """thunk whose exceptions raised by a `raise` statement of the translated function are reported as err:raised"""
+        def g():
+            try:
+                return f()
+            except (ZeroDivisionError, IndexError, TypeError, UnboundLocalError):
+                raise
+            except Exception:      # KernelError (in this tree: a NameError, the class is not imported) — any `raise E(..)` statement
+                return "err:raised"
+        return g
+    vals = [nan, 0.0, -0.0, 1.0, -1.0, 2.5, 7.0, 3.0, inf, -inf, 1e-9, 1e9]
+    # ---- C11 segmentation
+    for _ in range(n):
+        m, k = rng.randint(1, 6), rng.randint(1, 3)
+        cols = {"f%d" % j: [rng.choice(vals + [float(rng.randint(0, 4))] * 6) for _ in range(m)] for j in range(k)}
+        ths = [rng.choice([1.0, 2.0, 2.5, inf, -1.0, nan]) for _ in range(rng.choice([k, k, k, k + 1, max(0, k - 1), max(0, k - 2)]))]
+        mode = rng.choice([1, 2, 2, 1, 0, 3])
+        names = list(cols)
+        if rng.random() < 0.2:
+            names = names + [names[0]]
+
+        def run(cols=cols, ths=ths, mode=mode, names=names):
+            t = mk_track(cols)
+            SEG.segmentation(t, list(names), "out", list(ths), mode)
+            return " ".join("%d,%d" % (i, t.getObsAnalyticalFeature("out", i)) for i in range(t.size()))
+        tests.append(("segmentation", "rlog (Gen.Segmentation.segmentation DBLMAX (%d) [%s] %s (%d))" % (
+            m, ", ".join(lflist(cols[c]) for c in names), lflist(ths), mode), run, str))
+    # ---- C11 split on a feature name
+    for _ in range(n):
+        m = rng.randint(1, 7)
+        mark = [rng.choice([0.0, 1.0, 1.0, 0.0, nan, 2.0]) for _ in range(m)]
+        xy = [(float(rng.randint(0, 3)), float(rng.randint(0, 3))) for _ in range(m)]
+        limit = rng.choice([0, 0, 1.0, 2.0, 3.5, -1.0, 0.0])
+        t0 = mk_track({"m": mark}, xy)
+        table = []
+        for b in range(0, m + 1):
+            for e in range(-1, m):
+                try:
+                    with contextlib.redirect_stdout(io.StringIO()):
+                        table.append(((b, e), float(t0.extract(b, e).length())))
+                except Exception:
+                    pass
+
+        def run(mark=mark, xy=xy, limit=limit):
+            t = mk_track({"m": mark}, xy)
+            t.uid = "u"
+            tc = SEG.split(t, "m", limit)
+            return " ".join(",".join(str(tr.uid).split(".")[-2:]) for tr in tc)
+        tests.append(("split(feature)", "rlog (Gen.Segmentation.split_feature (%d) %s %s (tbl [%s]))" % (
+            m, lflist(mark), lf(limit), ", ".join("((%d, %d), %s)" % (b, e, lf(v)) for (b, e), v in table)), run, str))
+    # ---- C12 the M table of optimalPartition (`return backward(M)` is translated as `return M`)
+    import numpy as np
+    for _ in range(n):
+        m = rng.choice([0, 1, 2, 3, 4, 5, 5, 6, 6, 7])
+        C = [[float(rng.choice([0, 1, 1, 2, 3, 5, 8])) if rng.random() < 0.8 else rng.uniform(0, 9) for _ in range(m)] for _ in range(m)]
+        if rng.random() < 0.1 and m:
+            C[rng.randrange(m)][rng.randrange(m)] = rng.choice([nan, inf])
+        mode = rng.choice([0, 0, 1, 1, 2, -1])
+
+        def run(C=C, mode=mode, m=m):
+            old = SEG.backward
+            SEG.backward = lambda M: M
+            try:
+                M = SEG.optimalPartition(np.array(C, dtype=float).reshape((m, m)) if m else np.zeros((0, 0)), mode, False)
+            except ValueError:
+                return "err:value"
+            finally:
+                SEG.backward = old
+            return " | ".join(" ".join(pf(x) for x in r) for r in M)
+        tests.append(("optimalPartition(M)", "rtab (Gen.Segmentation.optimalPartition_tables ([%s] : List (List Float)) (%d) false)" % (
+            ", ".join(lflist(r) for r in C), mode), run, str))
+    # ---- C15 Kernel.evaluate / toSlidingWindow / Filter.execute with a Kernel object
+    for _ in range(n):
+        ca, cb = rng.choice([0.0, 1.0, -0.5, 0.25]), rng.choice([0.0, 1.0, 2.0, -1.0])
+        f = lambda x, ca=ca, cb=cb: ca * x + cb
+        lfun = "(fun (x : Float) => %s * x + %s)" % (lf(ca), lf(cb))
+        sup = rng.choice([0.5, 0.99, 1.0, 1.5, 2.0, 2.5, 3.7, 4.0, inf, nan, rng.uniform(0.2, 5)])
+        x = rng.choice(vals + [sup, -sup, rng.uniform(-6, 6)])
+        tests.append(("Kernel.evaluate", "r1 (Gen.Kernel.Kernel_evaluate %s %s %s)" % (lf(sup), lfun, lf(x)),
+                      lambda f=f, sup=sup, x=x: K.Kernel(f, sup).evaluate(x), pf))
+        if sup == sup and sup != inf:
+            tests.append(("Kernel.toSlidingWindow", "rl (Gen.Kernel.Kernel_toSlidingWindow fTrunc %s %s)" % (lf(sup), lfun),
+                          guarded(lambda f=f, sup=sup: " ".join(pf(v) for v in K.Kernel(f, sup).toSlidingWindow())), str))
+        m = rng.randint(0 if False else 1, 7)
+        sig = [rng.choice([nan, 0.0, 1.0, 2.0, -1.5, 4.0, rng.uniform(-3, 3)]) for _ in range(m)]
+        w = [rng.choice([0.0, 1.0, 0.5, 0.25, 2.0, -1.0]) for _ in range(rng.choice([1, 3, 3, 5, 5, 7, 2, 4, 9]))]
+        fb = rng.choice([True, False, None])
+
+        def run(sig=sig, w=w, fb=fb):
+            t = mk_track({"a": sig})
+            ko = K.Kernel(lambda x: 1.0, 1.0)
+            if fb is not None:
+                ko.setFilterBoundary(fb)
+            ko.toSlidingWindow = lambda w=w: list(w)
+            return " ".join(pf(v) for v in Filter().execute(t, "a", ko, "out"))
+        tests.append(("Filter.execute(Kernel)", "rl (Gen.Operators.Filter_execute_kernel fTrunc (%d) %s %s %s)" % (
+            m, lflist(sig), "true" if fb else "false", lflist(w)), guarded(run), str))
 
 
 def more_tests(a, rng, tests, NS):
@@ -126,7 +260,7 @@ def more_tests(a, rng, tests, NS):
         if rng.random() < 0.15:
             Y = Y[:-1] if Y and rng.random() < 0.5 else Y + [1.0]
         x, y = rng.choice([rng.uniform(-6, 6), float(rng.randint(-4, 4)), inf]), rng.uniform(-6, 6)
-        tests.append(("proj_polyligne", "r4i (Gen.Geometry.proj_polyligne INFF Float.sqrt %s %s %s %s)" % (lflist(X), lflist(Y), lf(x), lf(y)),
+        tests.append(("proj_polyligne", "r4i (Gen.Geometry.proj_polyligne INFF Float.sqrt FT.pow %s %s %s %s)" % (lflist(X), lflist(Y), lf(x), lf(y)),
                       lambda X=X, Y=Y, x=x, y=y: G.proj_polyligne(list(X), list(Y), x, y),
                       lambda v: "%s %s %s %d" % (pf(v[0]), pf(v[1]), pf(v[2]), v[3])))
     # ---- C08
@@ -290,6 +424,7 @@ def main():
         yr = rng.choice([rng.randint(-50, 2500), rng.choice([1900, 2000, 2100, 1600, 4, 100, 400, 0])])
         tests.append(("isLeapYear", "rb (Gen.ObsTime.isLeapYear (%d))" % yr, lambda yr=yr: ObsTime.isLeapYear(yr), lambda v: "true" if v else "false"))
     more_tests(a, rng, tests, NS)
+    tie3_tests(a, rng, tests)
     src = PRE + "".join("#eval IO.println (\"@\" ++ (%s))\n" % t[1] for t in tests)
     path = os.path.join(LEAN, ".lake", "py2lean_selftest.lean")
     with open(path, "w") as fh:
